@@ -96,6 +96,9 @@ func Solve(script string, dir, tag string, timeoutS int) SolveResult {
 				r.Verdict = "timeout"
 			default:
 				r.Verdict = "unknown"
+				if first == "unknown" && !strings.Contains(o, "(error") {
+					r.Raw = parseGetValue(o) // candidate model (not authoritative)
+				}
 			}
 			// errors before check-sat void the verdict
 			if idx := strings.Index(o, "(error"); idx >= 0 {
@@ -120,7 +123,7 @@ func Solve(script string, dir, tag string, timeoutS int) SolveResult {
 			best = r
 			break
 		}
-		if best.Verdict == "unknown" && (r.Verdict == "timeout" || r.Verdict == "error") {
+		if best.Verdict == "unknown" && len(best.Raw) == 0 && (r.Verdict == "timeout" || r.Verdict == "error" || len(r.Raw) > 0) {
 			best = r
 		}
 	}
